@@ -542,6 +542,26 @@ pub fn main(args: &Args) {
                 }
             }
         }
+        // deep values through every indent: arrays in arrays, objects in objects, alternating, to depth 120 (below the
+        // parser's limit), with non-empty innermost containers so that the deepest level is really indented
+        if shard == 1 % nsh {
+            for depth in [1usize, 2, 8, 9, 10, 11, 13, 16, 17, 22, 32, 33, 64, 65, 66, 100, 120] {
+                for shape in 0..3 {
+                    let mut v = if shape == 1 { RV::Obj(vec![("leaf".into(), RV::Num(1.0)), ("b".into(), RV::Null)]) } else { RV::Arr(vec![RV::Num(1.0), RV::Str("x".into())]) };
+                    for d in 1..depth {
+                        v = match (shape, d % 2) {
+                            (0, _) | (2, 0) => RV::Arr(vec![v]),
+                            _ => RV::Obj(vec![(format!("k{}", d), v)]),
+                        };
+                    }
+                    judge_serialize(&mut r, &v, None);
+                    for ind in 0..=8usize {
+                        judge_serialize(&mut r, &v, Some(ind));
+                        r.count("deep_values_pretty_printed", 1);
+                    }
+                }
+            }
+        }
         // every scalar char class once through the serialiser: all BMP chars + sampled astral, in a string
         if shard == 0 {
             let mut cp = 0u32;
@@ -573,7 +593,7 @@ pub fn main(args: &Args) {
     }
     total.sample(J::obj(vec![("kind", J::s("enumerated token sequence")), ("text", J::s("{\"a\":1 \"a\":1}")), ("reference", J::s("reject: missing-comma-object"))]));
     total.sample(J::obj(vec![("kind", J::s("enumerated number-like string")), ("text", J::s("-0.1e+9")), ("reference", J::s("accept"))]));
-    let rule = "all strings up to length L1 over the 16-symbol alphabet {{ }} [ ] : , \" \\ u 0 1 - . e t SP} (L1=5 quick, 6 thorough); all sequences of up to L2 tokens over 13 JSON tokens incl. literals, a member and a signed/fraction/exponent number (L2=5/6); all number-like strings up to L3 over {+,-,.,0,1,9,e,E} (L3=6/7); handwritten boundary texts x 6 contexts; nesting depths 1..5000 x 3 shapes; wide documents (2..1000 siblings of 16 value kinds in arrays, objects and nested); grammar-generated documents (every escape form, surrogate pairs, whitespace everywhere, duplicate keys) and single-edit mutants (delete/replace/insert at every position for documents <= 60 chars); generated values through serialize and serialize_pretty(0..8). non-trivial = the reference accepts, or the SUT accepts, or Rust's float parser accepts the text, or it is a mutant/boundary text; distinct = distinct texts";
+    let rule = "all strings up to length L1 over the 16-symbol alphabet {{ }} [ ] : , \" \\ u 0 1 - . e t SP} (L1=5 quick, 6 thorough); all sequences of up to L2 tokens over 13 JSON tokens incl. literals, a member and a signed/fraction/exponent number (L2=5/6); all number-like strings up to L3 over {+,-,.,0,1,9,e,E} (L3=6/7); handwritten boundary texts x 6 contexts; nesting depths 1..5000 x 3 shapes; wide documents (2..1000 siblings of 16 value kinds in arrays, objects and nested); grammar-generated documents (every escape form, surrogate pairs, whitespace everywhere, duplicate keys) and single-edit mutants (delete/replace/insert at every position for documents <= 60 chars); generated values through serialize and serialize_pretty(0..8), incl. values nested to depth 120 under every indent. non-trivial = the reference accepts, or the SUT accepts, or Rust's float parser accepts the text, or it is a mutant/boundary text; distinct = distinct texts";
     total.write(out, rule, Some(true), &[
         "reference: hand-written RFC 8259 recogniser+evaluator (jsonref.rs), cross-validated each run against CPython json.loads on a dumped sample; escapes denoting unpaired surrogates and grammatically valid numbers beyond the finite f64 range are not judged (either answer allowed)",
         "number values are obtained with Rust's correctly-rounded float parser from tokens the recogniser has validated against the RFC grammar",
